@@ -19,11 +19,11 @@ def be (bs : List Nat) : Nat := bs.foldl (fun acc b => acc * 256 + b) 0
 
 inductive FrErr where
   | tooShort          -- DataTooShort("Payload is too short")
-  | offset            -- InvalidLength("offset")
+  | offset            -- InvalidLength("offset"): below 128, or non-zero upper bytes
   | offsetOverflow    -- InvalidLength("offset + WORD_SIZE overflow")
   | lengthWord        -- InvalidLength("length word out of range")
   | lengthOverflow    -- InvalidLength("length_end + length overflow")
-  | bytesData         -- InvalidLength("bytes data")
+  | bytesData         -- InvalidLength("bytes data"): blob out of range, or non-zero upper length bytes
   | panic             -- slice index out of range (proved unreachable)
   deriving DecidableEq, Repr
 
@@ -33,6 +33,11 @@ def decodeFullReport (p : List Nat) : Except FrErr (List (List Nat) × List Nat)
   else
     match slice p 0 32, slice p 32 64, slice p 64 96 with
     | some c0, some c1, some c2 =>
+      match slice p 96 120 with                       -- upper 24 bytes of the offset word (3d0a82d)
+      | none => .error .panic
+      | some uo =>
+      if uo.any (· != 0) then .error .offset
+      else
       match slice p 96 128 with
       | none => .error .panic
       | some w =>
@@ -47,6 +52,11 @@ def decodeFullReport (p : List Nat) : Except FrErr (List (List Nat) × List Nat)
             | some lengthEnd =>
               if lengthEnd > p.length then .error .lengthWord
               else
+                match slice p offset (offset + 24) with   -- upper 24 bytes of the length word (3d0a82d)
+                | none => .error .panic
+                | some ul =>
+                if ul.any (· != 0) then .error .bytesData
+                else
                 match slice p offset lengthEnd with
                 | none => .error .panic
                 | some lw =>
@@ -67,11 +77,13 @@ def decodeFullReport (p : List Nat) : Except FrErr (List (List Nat) × List Nat)
 /-- the same function without any partial operation (shown equal in `Lemmas/Chainlink`) -/
 def decodeSpec (p : List Nat) : Except FrErr (List (List Nat) × List Nat) :=
   if p.length < 128 then .error .tooShort
+  else if ((p.drop 96).take 24).any (· != 0) then .error .offset
   else
     let offset := be ((p.drop 120).take 8)
     if offset < 128 then .error .offset
     else if ¬ offset + 32 < 2 ^ 64 then .error .offsetOverflow
     else if offset + 32 > p.length then .error .lengthWord
+    else if ((p.drop offset).take 24).any (· != 0) then .error .bytesData
     else
       let length := be ((p.drop (offset + 24)).take 8)
       if ¬ offset + 32 + length < 2 ^ 64 then .error .lengthOverflow
